@@ -7,7 +7,8 @@ LEVEL = "exploration"
 RULE = ("seeded random continua (2-5 annotators, 0..k units each, ten segment families incl. identical units across "
         "annotators, nested, long-overlapping, touching, negative times; labelled, unlabelled and mixed) x pooled "
         "dissimilarities of every built-in class and parameter value x both MIP back-ends; 12 % of the cases are editing "
-        "sessions (align, then add_annotator / merge of a unit-less annotator / add / remove / reset_bounds, align again "
+        "continua with > 100 000 candidate tuples, annotator names whose alphabetical order differs from numeric / "
+        "case-insensitive / insertion order, and sessions (align, then add_annotator / merge of a unit-less annotator / add / remove / reset_bounds, align again "
         "on the same continuum and dissimilarity objects, 2-6 edits); a case is non-trivial when "
         "the continuum has >= 2 units in total; distinct = distinct (continuum, dissimilarity, back-end) by SHA-1 of the "
         "canonical case")
@@ -54,7 +55,8 @@ def gen_case(ctx, dspecs):
         p_none = rng.choice([0.3, 1.0])
     cspec = cases.gen_continuum(rng, n_annot=n,
                                 max_units=MAX_UNITS[n] if rng.random() < 0.6 else rng.randint(1, MAX_UNITS[n]),
-                                labels=labels or cases.LABELS_SMALL, p_none=p_none, min_total=1)
+                                labels=labels or cases.LABELS_SMALL, p_none=p_none, min_total=1,
+                                names=cases.pick_names(rng, n))
     backend = rng.choice(["cbc", "glpk"])
     return {"continuum": cspec, "dissim": dspec, "backend": backend}
 
@@ -134,6 +136,14 @@ def run(ctx):
     # make sure the label-free classes (the only ones that accept unlabelled units) are always in the pool
     dspecs += [{"kind": "positional", "delta": 1.0}, {"kind": "absolute", "delta": 0.5},
                {"kind": "combined", "alpha": 1.0, "beta": 1.0, "delta": 1.0, "pos": None, "cat": None}]
+    # very large candidate sets (> 100 000 tuples under the cut): dense overlapping units, 5 annotators x 10-11 units
+    for _ in range(ctx.scale(1, 6)):
+        n, k = ctx.rng.choice([(5, 10), (5, 11), (4, 19)])
+        big = cases.gen_continuum(ctx.rng, n_annot=n, sizes=[k] * n, family="dense", names=cases.pick_names(ctx.rng, n))
+        case = {"continuum": big, "dissim": {"kind": "positional", "delta": 1.0}, "backend": "cbc"}
+        ctx.begin_case(case)
+        ctx.observe("family", "dense-huge-candidate-set")
+        check_case(ctx, case)
     n_cases = ctx.scale(400, 10000)
     for _ in range(n_cases):
         if ctx.out_of_time():
